@@ -656,7 +656,18 @@ func ruleC11Unescape(c *Ctx) {
 				}
 				n++
 				call, isCall := st.Val.(*ssa.Call)
-				c.Check(isCall && isCallTo(call, unesc), "C11.CONSTVALUE", FnName(fn)+": string constant", p.Pos(st.Pos()),
+				viaValue := false
+				if isCall && !isCallTo(call, unesc) && call.Call.StaticCallee() == nil && !call.Call.IsInvoke() {
+					// through a function value that can only denote the decoder (a variable initialised with it)
+					ts := p.FuncFlow().Resolve(call.Call.Value, 0)
+					viaValue = len(ts) > 0
+					for _, t := range ts {
+						if methodOf(t) != unesc {
+							viaValue = false
+						}
+					}
+				}
+				c.Check(isCall && (isCallTo(call, unesc) || viaValue), "C11.CONSTVALUE", FnName(fn)+": string constant", p.Pos(st.Pos()),
 					"the constant holds what ParseZqlString made of the literal", "the listener builds a string constant from "+describeValue(st.Val)+" instead of the result of zitiql.ParseZqlString: in this position escape sequences of the literal are not resolved, so the same literal denotes a different string here than as a comparison operand")
 			}
 		}
